@@ -91,7 +91,7 @@ def gen_case(rng, tier):
             pts = [[p[0], max(p)] for p in pts]
         pool.append({"pts": pts, "dtype": dt})
     ops = []
-    for _ in range(rng.randint(2, 8)):
+    for _ in range(rng.randint(2, 8 if tier == "quick" else 20)):
         k = rng.randrange(K)
         kind = rng.choice(("plot_diagrams", "plot_diagrams", "plot_diagrams", "bottleneck_matching",
                            "wasserstein_matching", "landscape"))
